@@ -304,25 +304,27 @@ TEXT = {'C11': {'technique': 'Lean 4 proof by mutual structural induction over t
                   'otherwise: a parenthesised variable is a subexpression whose range includes its parentheses — the reading the range oracles have used all '
                   'along).** Type-error sites: C15_type_error_sites.',
          'note': 'Trusted: Lean kernel, standard axioms, harness/driver; Unicode whitespace supplied by Rust std.'},
- 'C16': {'technique': "Lean 4 proof that the printer model's output tokenizes to a sentence of grammar.y (structural recursion over the term with a separation "
-                      'invariant, the C10 render law, and a derivation in the grammar regenerated from grammar.y), plus theorems on which operand positions '
-                      'are parenthesised and `decide` that the atomic set equals the one regenerated from term.rs; model tied to term.rs by op `print` on '
-                      'every (parent position, child former) pair of parser-produced terms, G-prog programs (parsed, elaborated, types) and raw terms with '
-                      'cells; print / re-tokenize / re-parse oracle on the implementation',
-         'level': 'The chain print → tokenize → parse is now closed by proof up to the last two passes: **C16_parse_printed — for every printable term, the '
-                  'parser model run on ANY token array whose kinds are the printed kinds succeeds, records no error, consumes every token and returns exactly '
-                  'the expected tree (names, implicitness, annotations, operator structure, `group` flags, with exact token-span ranges): completeness of all '
-                  '36 packrat functions on the printed sublanguage, ordered choice included (every earlier alternative is shown to fail); '
-                  'C16_chain_left_nested / C16_printed_application_left_nested — the applications pass gives printed application chains their left nesting '
-                  "back.** **And the round trip is closed: C16_reassoc_printed (the three passes turn the parsed tree into the term's own surface tree), "
-                  'C16_resolve_printed, and C16_read_back — for every hole-free printable term that is well scoped in a scope of distinct non-placeholder '
-                  'names (group names pairwise distinct and fresh, no empty group, no group directly as the body of a group: shapes the printer prints like '
-                  'their flattening), print → tokenize → parse → re-associate → resolve returns the term itself, names of unused function-type parameters '
-                  'aside, with no diagnostic.** What remains outside the theorem: terms with unresolved holes (`_` reads back as a fresh hole), the two '
-                  'exclusions (KF-print-implicit, negative literals in values), and the tie of the five models to the Rust (correspondence). **Proved end to '
-                  'end up to there: the text printed for any term tokenizes — no error, no panic, no two printed tokens fuse — to exactly the token kinds '
-                  '`printKinds` (C16_print_tokenizes: for every classifier that treats the keyword letters, space, digits and `)` `}` `;` as Rust std does, '
-                  'and every name table mapping the printed names to identifier lexemes), and that token sequence is a sentence of grammar.y '
+ 'C16': {'technique': 'Lean 4 proof of the round trip for the models of printer, tokenizer, parser, re-association passes and resolver: the printed text '
+                      'tokenizes (separation invariant + the C10 render law) to a sentence of the grammar regenerated from grammar.y, the packrat parser model '
+                      'reads it back to the expected tree (completeness on the printed sublanguage), the passes and name resolution return the term itself; '
+                      'plus theorems on which operand positions are parenthesised and `decide` that the atomic set and the operator arms equal the ones '
+                      'regenerated from term.rs; models tied to term.rs / tokenizer.rs / parser.rs by translator tables and by correspondence (op `print` on '
+                      'every (parent position, child former) pair of parser-produced terms, G-prog programs and raw terms with cells); print / re-tokenize / '
+                      're-parse oracle on the implementation',
+         'level': 'The round trip print → tokenize → parse → re-associate → resolve is closed by proof for the five models. Parse step: **C16_parse_printed — '
+                  'for every printable term, the parser model run on ANY token array whose kinds are the printed kinds succeeds, records no error, consumes '
+                  'every token and returns exactly the expected tree (names, implicitness, annotations, operator structure, `group` flags, with exact '
+                  'token-span ranges): completeness of all 36 packrat functions on the printed sublanguage, ordered choice included (every earlier alternative '
+                  'is shown to fail); C16_chain_left_nested / C16_printed_application_left_nested — the applications pass gives printed application chains '
+                  "their left nesting back.** **Passes and resolution: C16_reassoc_printed (the three passes turn the parsed tree into the term's own surface "
+                  'tree), C16_resolve_printed, and C16_read_back — for every hole-free printable term that is well scoped in a scope of distinct '
+                  'non-placeholder names (group names pairwise distinct and fresh, no empty group, no group directly as the body of a group: shapes the '
+                  'printer prints like their flattening), print → tokenize → parse → re-associate → resolve returns the term itself, names of unused '
+                  'function-type parameters aside, with no diagnostic.** What remains outside the theorem: terms with unresolved holes (`_` reads back as a '
+                  'fresh hole), the two exclusions (KF-print-implicit, negative literals in values), and the tie of the five models to the Rust '
+                  '(correspondence). **Tokenizer step: the text printed for any term tokenizes — no error, no panic, no two printed tokens fuse — to exactly '
+                  'the token kinds `printKinds` (C16_print_tokenizes: for every classifier that treats the keyword letters, space, digits and `)` `}` `;` as '
+                  'Rust std does, and every name table mapping the printed names to identifier lexemes), and that token sequence is a sentence of grammar.y '
                   '(C16_printed_text_is_sentence, C16_print_derives) for every term without an implicit non-dependent function type (KF-print-implicit; proved '
                   'not a sentence) and without a negative literal (never in a parsed or elaborated term; `f -1` and `f - 1` are proved to be the same '
                   'tokens).** The printed text is the flattening of a lexeme list that mirrors the printer arm by arm (C16_print_items), digits round-trip '
@@ -371,34 +373,34 @@ TEXT = {'C11': {'technique': 'Lean 4 proof by mutual structural induction over t
                       "families; Earley recogniser over grammar.y and the generator's own derivation trees as oracles on the implementation; Lean proof of "
                       'completeness of the packrat parser model w.r.t. the grammar (induction over segment length up the precedence tower, follow sets from an '
                       'extension law) and of unambiguity of the grammar',
-         'level': '(formerly partial on completeness; now proved for the model) (completeness and unambiguity of the grammar are not proved). **Soundness '
-                  'w.r.t. grammar.y is proved**: the productions of grammar.y are regenerated into Lean on every run (Generated/Grammar.lean), and whenever '
-                  'the model parser accepts a token sequence without recording an error, the sequence is derivable from the start symbol in that grammar '
-                  '(C07_parse_sound, C07_accepted_is_sentence: all 36 functions, any length). Also proved for the model: a successful parse consumed all '
-                  'tokens and contains no error node; a right-nested chain of atoms of any length and any mixture of + and - (resp. * and /) is rebuilt '
-                  'left-nested with operators and operands in order; a grouped chain met with a pending accumulator is re-associated on its own (the repaired '
-                  "D8); the sums pass leaves product nodes' shape alone. Two first formulations were refuted by the proof attempt and are kept next to their "
-                  'refutations. Correspondence: op `parse` (resolved term with the source range of every node, or the ranges of the diagnostics in order) on '
-                  'every token sequence up to length 3 (4 thorough) over the full alphabet, every grammar sentence up to 4 (5) tokens, generated programs with '
-                  'token edits, nesting families. Oracles: accepted => sentence of grammar.y with exactly one derivation (Earley); generated sentence => '
-                  "accepted with the generator's tree. **Translator tie (regenerated on every run):** extract/arms.py reads, for each of the 36 packrat "
-                  'functions of parser.rs, the macro invocations and calls in order (try_return!/try_eval!/plain call/consume_token!/expect_token!/node '
-                  'built); for 33 of the 36 functions the body the model runs IS the interpretation of the extracted row by a generic combinator of its shape '
-                  '(C07_parser_steps_regular: the 8 choice functions — alternatives in order —, the 9 binary-operator functions — operand nonterminals, '
-                  'operator token, node — and the 5 keyword leaves; C07_parser_steps_regular2: variable, literal, the two plain and four annotated binders, '
-                  'arrow, application, negation — every token kind, every nonterminal called, node and `implicit` flag from the row); the 3 functions with '
-                  'recovery scans are compared with the rows the model was written from (C07_parser_steps_irregular). **Unambiguity of grammar.y is a theorem '
-                  '(Lemmas/Unambiguous.lean): a token segment has at most one parse tree from any of the 36 nonterminals (C07_unambiguous), by an extension '
-                  'law — two derivations from the same nonterminal and start either end together with equal trees or the token after the shorter one lies in a '
-                  'fixed set that contains no separator of the construct (C07_extension_law; atoms are prefix-free: C07_atom_end_unique); hence the tree the '
-                  'parser returns for an accepted input is THE tree of that token sequence (C07_accepted_unique_tree). ** **Completeness is a theorem too '
-                  '(Lemmas/ParseComplete*.lean, statements in Props/C07b.lean): C07_parse_complete — every sentence of the grammar (any token array that is a '
-                  '`term` segment with parse tree t) is accepted by the parser model with exactly the tree t, every token consumed, no error recorded — '
-                  'ordered choice and the three error-recovering functions included: on a sentence every alternative tried before the right one fails and '
-                  'recovery never commits wrongly; C07_accepted_iff_sentence — the parser accepts a token array iff it is a sentence, and what it returns is '
-                  "the sentence's unique tree. With soundness (C07_parse_sound), unambiguity (C07_unambiguous) and left association of chains "
-                  "(C07_*_left_assoc_fixed), the property's iff holds for the model for every token sequence; the model is tied to parser.rs by the steps "
-                  'translator and the correspondence suite.**',
+         'level': "For the parser MODEL the property's iff is a theorem for every token sequence: sound, complete and unambiguous (details below); the model "
+                  'is tied to parser.rs by the steps translator and the correspondence suite. **Soundness w.r.t. grammar.y is proved**: the productions of '
+                  'grammar.y are regenerated into Lean on every run (Generated/Grammar.lean), and whenever the model parser accepts a token sequence without '
+                  'recording an error, the sequence is derivable from the start symbol in that grammar (C07_parse_sound, C07_accepted_is_sentence: all 36 '
+                  'functions, any length). Also proved for the model: a successful parse consumed all tokens and contains no error node; a right-nested chain '
+                  'of atoms of any length and any mixture of + and - (resp. * and /) is rebuilt left-nested with operators and operands in order; a grouped '
+                  "chain met with a pending accumulator is re-associated on its own (the repaired D8); the sums pass leaves product nodes' shape alone. Two "
+                  'first formulations were refuted by the proof attempt and are kept next to their refutations. Correspondence: op `parse` (resolved term with '
+                  'the source range of every node, or the ranges of the diagnostics in order) on every token sequence up to length 3 (4 thorough) over the '
+                  'full alphabet, every grammar sentence up to 4 (5) tokens, generated programs with token edits, nesting families. Oracles: accepted => '
+                  "sentence of grammar.y with exactly one derivation (Earley); generated sentence => accepted with the generator's tree. **Translator tie "
+                  '(regenerated on every run):** extract/arms.py reads, for each of the 36 packrat functions of parser.rs, the macro invocations and calls in '
+                  'order (try_return!/try_eval!/plain call/consume_token!/expect_token!/node built); for 33 of the 36 functions the body the model runs IS the '
+                  'interpretation of the extracted row by a generic combinator of its shape (C07_parser_steps_regular: the 8 choice functions — alternatives '
+                  'in order —, the 9 binary-operator functions — operand nonterminals, operator token, node — and the 5 keyword leaves; '
+                  'C07_parser_steps_regular2: variable, literal, the two plain and four annotated binders, arrow, application, negation — every token kind, '
+                  'every nonterminal called, node and `implicit` flag from the row); the 3 functions with recovery scans are compared with the rows the model '
+                  'was written from (C07_parser_steps_irregular). **Unambiguity of grammar.y is a theorem (Lemmas/Unambiguous.lean): a token segment has at '
+                  'most one parse tree from any of the 36 nonterminals (C07_unambiguous), by an extension law — two derivations from the same nonterminal and '
+                  'start either end together with equal trees or the token after the shorter one lies in a fixed set that contains no separator of the '
+                  'construct (C07_extension_law; atoms are prefix-free: C07_atom_end_unique); hence the tree the parser returns for an accepted input is THE '
+                  'tree of that token sequence (C07_accepted_unique_tree). ** **Completeness is a theorem too (Lemmas/ParseComplete*.lean, statements in '
+                  'Props/C07b.lean): C07_parse_complete — every sentence of the grammar (any token array that is a `term` segment with parse tree t) is '
+                  'accepted by the parser model with exactly the tree t, every token consumed, no error recorded — ordered choice and the three '
+                  'error-recovering functions included: on a sentence every alternative tried before the right one fails and recovery never commits wrongly; '
+                  "C07_accepted_iff_sentence — the parser accepts a token array iff it is a sentence, and what it returns is the sentence's unique tree. With "
+                  "soundness (C07_parse_sound), unambiguity (C07_unambiguous) and left association of chains (C07_*_left_assoc_fixed), the property's iff "
+                  'holds for the model for every token sequence; the model is tied to parser.rs by the steps translator and the correspondence suite.**',
          'note': 'Trusted: Lean kernel, standard axioms, harness/driver, the Earley recogniser, the renderer of prog.rs.'},
  'C08': {'technique': 'Lean proof that the model resolver (name->depth map with insert/remove, as the Rust) is sound and complete w.r.t. a binder-stack '
                       'specification toDB, restores its map, and allocates fresh holes; resolver model tied to parser.rs by op `parse` (indices of every '
